@@ -77,11 +77,11 @@ theorem uq_cancelInner {s : State} (h : UQ s) (now : Nat) : UQ (cancelInner s no
   have hi : Idle (s.timer.nak.pause now) := by rw [idle_pause h.idle]; exact h.idle
   simp only [cancelInner, h.mode]
   apply uq_emit
-  apply uq_shutdown
   split
   · rename_i hc
     exact uq_frame' h rfl rfl rfl rfl rfl hi (fun _ => hc)
-  · exact uq_frame' h rfl rfl rfl rfl rfl hi h.fin
+  · apply uq_shutdown
+    exact uq_frame' h rfl rfl rfl rfl rfl hi h.fin
 
 theorem uq_resume {s : State} (h : UQ s) (now : Nat) : UQ (resume s now) := by
   have hm : (s.cfg.mode == TransmissionMode.Acknowledged) = false := by rw [h.mode]; rfl
